@@ -76,8 +76,11 @@ func (w *worker) run(ctx context.Context, timeout time.Duration, resultCh chan<-
 
 	for curr := w.state.from; curr <= w.state.to; curr++ {
 		err := w.sample(ctx, timeout, curr)
-		if errors.Is(err, context.Canceled) {
-			// sampling worker will resume upon restart
+		if errors.Is(err, context.Canceled) && ctx.Err() != nil {
+			// DASer is stopping: sampling worker will resume upon restart.
+			// A cancellation error while the worker's own context is still alive comes from
+			// somewhere below the sampler and is an ordinary sampling failure: the worker must
+			// go on and report its result, otherwise its slot is never freed.
 			return
 		}
 		if errors.Is(err, availability.ErrOutsideSamplingWindow) {
